@@ -464,6 +464,32 @@ fn tokens_string(rng: &mut Rng, n: usize, extra: bool) -> String {
     s
 }
 
+/// a request for an existing file, decorated: escapes, "..", empty and doubled segments
+fn decorated_url(rng: &mut Rng) -> String {
+    let target = *rng.pick(TREE_FILES);
+    let mut out = String::new();
+    for _ in 0..rng.below(3) {
+        out.push_str(*rng.pick(&["../", "%2e%2e/", "aa/../", "/", "a/%2E%2E/", "%2e./", "aa/a/../../", ".%2e/"]));
+    }
+    for b in target.bytes() {
+        let enc = match b {
+            b'/' => false, // an encoded separator is rejected (exercised by the token alphabet)
+            b'%' => true,
+            0x80..=0xff => true,
+            _ => rng.chance(1, 4),
+        };
+        if enc {
+            out.push_str(&if rng.chance(1, 2) { format!("%{b:02x}") } else { format!("%{b:02X}") });
+        } else {
+            out.push(b as char);
+        }
+    }
+    if rng.chance(1, 6) {
+        out.push_str(*rng.pick(&["/", "/.", "/..", "%2f", "/../a", "%00", ":", "/*"]));
+    }
+    out
+}
+
 fn exhaustive(len: usize, mut f: impl FnMut(String)) {
     let total = TOKENS.len().pow(len as u32);
     for code in 0..total {
@@ -863,12 +889,12 @@ fn main() {
             for i in 0..scale(500, 4000) {
                 let mut r = rng.fork();
                 let n = r.range(3, 9) as usize;
-                let tail = tokens_string(&mut r, n, false);
+                let tail = if r.chance(1, 2) { decorated_url(&mut r) } else { tokens_string(&mut r, n, false) };
                 emit_case(&cx, &mut em, format!("url-gen-{i}"), Case::Url { hidden: r.chance(1, 3), tail }).await;
             }
             // direct parse_path: exhaustive over the token alphabet, then the extended alphabet
             let mut paths: Vec<String> = vec![];
-            for len in 1..=3 {
+            for len in 1..=(if thorough { 3 } else { 2 }) {
                 exhaustive(len, |s| paths.push(s));
             }
             for (i, s) in paths.into_iter().enumerate() {
